@@ -17,10 +17,31 @@ METHODS = ["replacement", "replacement", "single_pass", "dynamic", "proportion",
 STRATS = [None, "by_label"]
 
 
+_SUB = {}
+
+
+def _user_subclass():
+    """A user subclass of Scores with a constructor signature of its own."""
+    if "cls" not in _SUB:
+        from score_analysis import Scores
+
+        class VerificationScores(Scores):
+            def __init__(self, mated, non_mated, *, easy_mated=0, easy_non_mated=0, score_class="pos", equal_class="pos"):
+                super().__init__(mated, non_mated, nb_easy_pos=easy_mated, nb_easy_neg=easy_non_mated,
+                                 score_class=score_class, equal_class=equal_class)
+
+        _SUB["cls"] = VerificationScores
+    return _SUB["cls"]
+
+
 def _source(src):
     from score_analysis import Scores
 
     dt = src.get("dtype") or float
+    if src.get("subclass"):
+        return _user_subclass()(np.asarray(src["pos"], dtype=dt), np.asarray(src["neg"], dtype=dt),
+                                easy_mated=src["ep"], easy_non_mated=src["en"], score_class=src["sc"],
+                                equal_class=src["ec"])
     return Scores(np.asarray(src["pos"], dtype=dt), np.asarray(src["neg"], dtype=dt),
                   nb_easy_pos=src["ep"], nb_easy_neg=src["en"], score_class=src["sc"],
                   equal_class=src["ec"])
@@ -143,7 +164,8 @@ def _sources(draw, min_class=1, max_size=20, allow_empty=False, big=True):
             vals = [float(v) for v in draw(st.permutations(list(range(hi + 1))))[: n + m]]
         else:
             vals = [float(v) for v in draw(st.lists(st.integers(0, hi), min_size=n + m, max_size=n + m))]
-    return dict(pos=vals[:n], neg=vals[n:], ep=draw(ez), en=draw(ez), sc=sc, ec=ec, dtype=dtype)
+    return dict(pos=vals[:n], neg=vals[n:], ep=draw(ez), en=draw(ez), sc=sc, ec=ec, dtype=dtype,
+                subclass=draw(st.sampled_from([False, False, False, True])))
 
 
 @st.composite
@@ -348,9 +370,10 @@ def _dist_strategy(tier):
         ez = st.sampled_from([0, 0, 5, 20, 60])
         method, strat = draw(st.sampled_from([("replacement", None), ("single_pass", None),
                                               ("single_pass", "by_label"),
-                                              ("replacement", "by_label"), ("dynamic", None)]))
+                                              ("replacement", "by_label"), ("dynamic", None), ("proportion", None), ("proportion", None)]))
         return dict(n=n, m=m, ep=draw(ez), en=draw(ez), sc=draw(st.sampled_from(["pos", "neg"])),
-                    method=method, strat=strat, seed=draw(gen.RNG_SEED), K=K)
+                    method=method, strat=strat, seed=draw(gen.RNG_SEED), K=K,
+                    ratio=draw(st.sampled_from([0.02, 0.05, 0.05, 0.3, 0.6])) if method == "proportion" else None)
 
     return cases()
 
@@ -362,10 +385,12 @@ def _dist_stats(case, seed, K):
     pos = 0.5 + 2.0 * np.arange(n)
     neg = 1.25 + 2.0 * np.arange(m)
     s = Scores(pos, neg, nb_easy_pos=ep, nb_easy_neg=en, score_class=case["sc"])
-    cfg = BootstrapConfig(sampling_method=case["method"], stratified_sampling=case["strat"])
+    cfg = BootstrapConfig(sampling_method=case["method"], stratified_sampling=case["strat"], ratio=case.get("ratio"))
     np.random.seed(seed)
     cp, cn = np.zeros(n), np.zeros(m)
     sz = np.zeros(4)
+    if case["method"] == "proportion":
+        K = 4 * K  # small samples, cheap to draw: more of them
     for _ in range(K):
         b = s.bootstrap_sample(cfg)
         sz += [b.nb_hard_pos, b.nb_hard_neg, b.nb_easy_pos, b.nb_easy_neg]
@@ -379,6 +404,35 @@ def _dist_stats(case, seed, K):
     T = n + m + ep + en
     exceed = []
     worst = 0.0
+    if case["method"] == "proportion":
+        # the requested fraction of each stratum, drawn without replacement: sizes are fixed, and every
+        # score of a class is equally likely to be among the kept ones
+        r = case["ratio"]
+        keep = [max(int(r * n), 1), max(int(r * m), 1), int(r * ep), int(r * en)]
+        for j, name in enumerate(["hard_pos", "hard_neg", "easy_pos", "easy_neg"]):
+            if sz[j] != K * keep[j]:
+                exceed.append(f"stratum {name}: expected exactly {keep[j]} per sample, total {sz[j]} over K={K}")
+        for cnt, size, k_, nm in ((cp, n, keep[0], "positive"), (cn, m, keep[1], "negative")):
+            p_ = k_ / size
+            t = _bernstein(K * p_ * (1 - p_))
+            d = np.abs(cnt - K * p_)
+            worst = max(worst, float(d.max()) / t)
+            if d.max() > t:
+                i = int(d.argmax())
+                exceed.append(f"{nm} score #{i} of {size} is kept in {cnt[i] / K:.4f} of the samples, expected {p_:.4f} "
+                              f"(|sum-K*p|={d[i]:.1f} > bound {t:.1f} over K={K})")
+            # ... and the kept scores are spread evenly over the sorted class: the sum of their ranks
+            # over all samples (a single, far more powerful statistic than the per-score counts)
+            rank_sum = float(np.dot(cnt, np.arange(size)))
+            mean_ = K * k_ * (size - 1) / 2.0
+            big, var = k_ * size / 2.0, K * k_ * size * size / 12.0
+            L = 28.0
+            t = big * L / 3 + math.sqrt((big * L / 3) ** 2 + 2 * var * L)
+            worst = max(worst, abs(rank_sum - mean_) / t)
+            if abs(rank_sum - mean_) > t:
+                exceed.append(f"{nm} class of {size}: the kept scores have mean rank {rank_sum / (K * k_):.2f}, expected "
+                              f"{(size - 1) / 2:.2f} (|sum-mean|={abs(rank_sum - mean_):.0f} > bound {t:.0f} over K={K})")
+        return exceed, worst
     for j, (e_, name) in enumerate(zip([n, m, ep, en], ["hard_pos", "hard_neg", "easy_pos", "easy_neg"])):
         q = e_ / T
         # variance proxy of one sample's stratum size: binomial split of the population
